@@ -696,7 +696,8 @@ def _make_injection(inj, obs):
                     obs['inject_skipped'] = 'victim already finished'
                     return
                 obs['injected'] = {'kind': 'sigkill', 'victim': st.role, 'instance': ordinal, 'point': st.points, 't': round(S.now - S.t0, 6),
-                                   'in_user_function': bool(getattr(st, 'in_user', 0)), 'victim_phase': _victim_phase(S, st)}
+                                   'in_user_function': bool(getattr(st, 'in_user', 0)), 'victim_phase': _victim_phase(S, st),
+                                   'victim_task': _victim_task(S, st)}
                 S.rec('inject-sigkill', st.role)
                 S.kill_proc(st.proc)
         elif kind == 'sigint':
@@ -737,6 +738,32 @@ def _victim_phase(S, st):
                 return 'chunk_taken'
             return 'pill_taken'
     return 'idle'
+
+
+def _victim_task(S, st):
+    """index of the apply task the victim was handed most recently (taken, or next in its queue after the pill it took)"""
+    try:
+        for ev in reversed(S.trace):
+            if ev[0] < getattr(st, 'start_step', 0):
+                break
+            if ev[2] != st.role:
+                continue
+            if ev[3] == 'user' and ev[4] == 'task':
+                return ev[5]
+            if ev[3] == 'q.get' and isinstance(ev[4], str) and ev[4].startswith('tq['):
+                item = ev[5]
+                if isinstance(item, tuple) and len(item) == 2 and isinstance(item[1], tuple) and item[1] and callable(item[1][0]):
+                    return item[1][1][0][0]
+                if item == '\x03':
+                    # the task is the next entry of that queue
+                    for e2 in S.trace:
+                        if e2[3] == 'q.put' and e2[4] == ev[4] and e2[0] > 0:
+                            pass
+                    import mpire  # noqa
+                    return None
+    except Exception:
+        return None
+    return None
 
 
 def _in_user(S, st):
